@@ -43,7 +43,8 @@ def check(topo, eqpt, key, junction):
         if isinstance(f, Fiber):
             total_len[f.uid.split('_(')[0]] = (f.params.length, float(f.loss), f.loss_coef_func(FPROBE) * f.params.length,
                                                f.chromatic_dispersion(FPROBE),
-                                               sorted((round(l['position'], 6), l['loss']) for l in f.params.lumped_losses))
+                                               sorted((round(l['position'], 6), l['loss']) for l in f.params.lumped_losses),
+                                               f.params.att_in, np.atleast_1d(f.gamma(FPROBE)))
     net, eqpt = design(topo, deepcopy(eqpt))
     prob = []
     span = eqpt['Span']['default']
@@ -55,6 +56,7 @@ def check(topo, eqpt, key, junction):
     parts = {}
     table = {}
     lumped = {}
+    split_parts = {}
     for n in net.nodes():
         if isinstance(n, (Roadm, Transceiver)):
             continue
@@ -78,6 +80,8 @@ def check(topo, eqpt, key, junction):
             parts.setdefault(base, []).append(n.params.length)
             table.setdefault(base, []).append((n.loss_coef_func(FPROBE) * n.params.length, n.chromatic_dispersion(FPROBE)))
             k_span = int(n.uid.split('_(')[1].split('/')[0]) - 1 if '_(' in n.uid else 0
+            if '_(' in n.uid:
+                split_parts.setdefault(base, []).append((k_span, n))
             lumped.setdefault(base, []).extend((round(k_span * n.params.length * 1e-3 + l['position'], 6), l['loss'])
                                                for l in n.params.lumped_losses)
             if isinstance(nxt, Fiber):
@@ -110,6 +114,13 @@ def check(topo, eqpt, key, junction):
             L = total_len[base][0]
             if abs(sum(lens) - L) > 1e-6 * max(1, L) or max(lens) - min(lens) > 1e-6 * max(1, L):
                 prob.append(f'{base}: split spans {lens} do not add up equally to {L}')
+            # ... the input attenuator of the fibre sits in front of its first span only, and every span is the same fibre
+            # (same nonlinear coefficient at every probed frequency)
+            for k_span, part in split_parts.get(base, []):
+                if k_span > 0 and total_len[base][5] and abs(part.params.att_in - total_len[base][5]) < 1e-9 and junction == 'split':
+                    prob.append(f'{part.uid}: carries the input attenuator of the whole fibre ({total_len[base][5]} dB) again')
+                if not np.allclose(np.atleast_1d(part.gamma(FPROBE)), total_len[base][6], rtol=1e-9):
+                    prob.append(f'{part.uid}: nonlinear coefficient {np.atleast_1d(part.gamma(FPROBE)).tolist()} 1/W/m, the fibre had {total_len[base][6].tolist()}')
             # ... each lumped loss of the fibre is found once, at its own distance from the start of the fibre
             if sorted(lumped.get(base, [])) != total_len[base][4]:
                 prob.append(f'{base}: lumped losses (km from the start, dB) {sorted(lumped.get(base, []))} after the split, the fibre had {total_len[base][4]}')
@@ -199,6 +210,29 @@ for short_km, n_fused in ((10, 1), (4, 2), (30, 1)):
     chain = ['roadm A', 'f1'] + [f'fu{k}' for k in range(n_fused)] + ['E1', 'f2', 'roadm B']
     cons = list(zip(chain, chain[1:])) + [('trx A', 'roadm A'), ('roadm B', 'trx B'), ('trx B', 'roadm B'), ('roadm B', 'back'), ('back', 'roadm A'),
                                           ('roadm A', 'trx A')]
+    try:
+        check({'elements': els, 'connections': [{'from_node': x, 'to_node': y} for x, y in cons]}, equipment(), key, 'fused')
+    except Exception as e:
+        wit.append({'key': key, 'problems': [f'{type(e).__name__}: {e}'[:300]]})
+# long fibres with an input attenuator, and with both effective area and gamma given: the attenuator once, the same fibre in every span
+for extra in ({'att_in': 3.0}, {'effective_area': 83e-12, 'gamma': 0.002}, {'att_in': 1.5, 'effective_area': 70e-12, 'gamma': 0.0011}, {'gamma': 0.0016}):
+    cases += 1
+    key = f'line2:[200]:{extra}'
+    try:
+        topo = mesh(['A', 'B'], [('A', 'B')], spans={('A', 'B'): [200]})
+        for e in topo['elements']:
+            if e['type'] == 'Fiber':
+                e['params'].update(extra)
+        check(topo, equipment(), key, 'split')
+    except Exception as e:
+        wit.append({'key': key, 'problems': [f'{type(e).__name__}: {e}'[:300]]})
+# a splice directly behind an amplifier, in front of a short fibre: the span is padded all the same
+for short_km in (10, 25):
+    cases += 1
+    key = f'amplifier - fused - fibre {short_km} km - amplifier'
+    els = [_trx('trx A'), _trx('trx B'), _roadm('roadm A'), _roadm('roadm B'), edfa('boo'), _fused('fu', 0.5), _fiber('f1', short_km), _fiber('back', 80)]
+    chain = ['trx A', 'roadm A', 'boo', 'fu', 'f1', 'roadm B', 'trx B']
+    cons = list(zip(chain, chain[1:])) + [('trx B', 'roadm B'), ('roadm B', 'back'), ('back', 'roadm A'), ('roadm A', 'trx A')]
     try:
         check({'elements': els, 'connections': [{'from_node': x, 'to_node': y} for x, y in cons]}, equipment(), key, 'fused')
     except Exception as e:
